@@ -122,7 +122,7 @@ def run(ctx, replay=None):
                 continue
             try:
                 V = vc.build(case)
-                edges = np.asarray(V.bins, dtype=float)
+                edges = np.array(V.bins, dtype=float)          # a copy: the harness never holds the instance's own array
                 D = np.asarray(V.distance, dtype=float)
                 nl = V.n_lags
                 Mres = V.maxlag
@@ -149,6 +149,16 @@ def run(ctx, replay=None):
                              custom=case.get('bins'), path='sparse' if sparse else 'dense')
             if method == 'custom' and (int(nl) != len(case['bins']) or float(V.maxlag) != float(max(case['bins']))):
                 ctx.problem('oracle', 'custom edges: n_lags / maxlag do not follow the supplied edges', case, {'n_lags': int(nl), 'maxlag': V.maxlag})
+            # the edges are the instance's: a caller rescaling the returned array (a normalised plot does) does not move them
+            try:
+                b_ = V.bins
+                b_ *= 0.5
+                again = np.asarray(V.bins, dtype=float)
+                if len(again) != len(edges) or not np.array_equal(again, edges, equal_nan=True):
+                    ctx.problem('oracle', 'after the caller rescaled the array returned by bins, the lag edges of the instance changed', case,
+                                {'before': edges.tolist()[:10], 'after': again.tolist()[:10]}, {'what': 'returned-edges-alias', 'method': method})
+            except Exception as e:
+                ctx.count('reread_rejected', type(e).__name__)
             ctx.case_done(case, bool(nt) and len(set(edges.tolist())) >= 2)
         # ---- stream 2: binning functions called directly on distance multisets
         dcases = [] if cases is not None and not cases[0].get('direct') else (cases or [])
@@ -239,6 +249,80 @@ def run(ctx, replay=None):
             M_eff = effective_maxlag(ml, d_true)
             nt = check_edges(ctx, model, case, method, n, edges, int(nl), D.tolist(), M_impl, d_true, M_eff, path='dense')
             ctx.case_done(case, bool(nt))
+        # ---- stream 4: the directional class (binning of the selected pairs only; unselected pairs are NaN in the distance vector)
+        if cases is None:
+            import dir_common as dc
+            from skgstat import DirectionalVariogram
+            for t in range(40 if not ctx.thorough() else 400):
+                dcase = dc.gen_case(rng, nmax=22)
+                dcase['bin_func'] = rng.choice(['even', 'uniform', 'uniform', 'sturges', 'sqrt', 'kmeans', 'ward'])
+                dcase['maxlag'] = rng.choice([None, None, 0.6, 'median', 'mean'])
+                if t < 7:
+                    # always part of a run: every method with the maximum lag left unset (the distance vector then holds NaN for unselected pairs)
+                    dcase['bin_func'], dcase['maxlag'] = ['uniform', 'even', 'sturges', 'sqrt', 'kmeans', 'ward', 'uniform'][t], None
+                    dcase['tolerance'], dcase['model'] = [45, 90, 22.5, 120, 60, 90, 30][t], 'compass'
+                dcase['n_lags'] = rng.randint(2, 6)
+                case = dict(dcase, directional=True)
+                ctx.count('directional_method', dcase['bin_func'])
+                try:
+                    DV = dc.build(dcase)
+                    mask = np.asarray(DV._direction_mask(), bool)
+                    dall = np.asarray(DV.distance, float)
+                    edges = np.asarray(DV.bins, float)
+                    nl = DV.n_lags
+                    Mres = DV.maxlag
+                except Exception as e:
+                    # no selected pair at all is legitimate; anything else is a failure to produce edges
+                    try:
+                        ok_empty = int(np.asarray(dc.geometry(dcase, bandwidth=dc.resolved_bandwidth(dcase))[0]).sum()) < 2
+                    except Exception:
+                        ok_empty = True
+                    if ok_empty or 'clusters' in str(e) or 'n_samples' in str(e) or (dcase['bin_func'] in ('kmeans', 'ward') and any(w_ in str(e) for w_ in ('converge', 'sample', 'cluster'))):
+                        ctx.count('directional_rejected', type(e).__name__)
+                    else:
+                        ctx.problem('oracle', 'directional variogram with %s binning raises %s although pairs are selected: %s' % (dcase['bin_func'], type(e).__name__, str(e)[:80]), case, None,
+                                    {'what': 'directional-edges-raise', 'method': dcase['bin_func']})
+                    ctx.case_done(case, False)
+                    continue
+                sel = dall[mask]
+                inside = sorted(set(float(x) for x in sel if Mres is None or x <= Mres))
+                if len(inside) < 2:
+                    ctx.count('guard', 'not-met-directional')
+                    ctx.case_done(case, False)
+                    continue
+                M_eff = min(float(Mres), float(np.max(sel))) if Mres is not None else float(np.max(sel))      # the maximum lag, clipped to the largest selected distance
+                tol = 1e-11 * max(1.0, abs(M_eff))
+                sig = {'what': 'edges', 'method': dcase['bin_func'], 'path': 'directional'}
+                if not np.all(np.isfinite(edges)):
+                    ctx.problem('oracle', 'directional variogram: lag edges are not finite although %d distinct selected distances lie within the maximum lag' % len(inside), case, {'edges': edges.tolist()}, sig)
+                elif np.any(np.diff(edges) < -tol):
+                    ctx.problem('oracle', 'directional variogram: lag edges decrease', case, {'edges': edges.tolist()}, sig)
+                elif len(edges) != int(nl):
+                    ctx.problem('oracle', 'directional variogram: n_lags reports %r but there are %d lag edges' % (nl, len(edges)), case, {'edges': edges.tolist()}, sig)
+                elif edges.max() > M_eff + tol:
+                    ctx.problem('oracle', 'directional variogram: a lag edge (%r) exceeds the effective maximum lag %r of the selected pairs' % (float(edges.max()), M_eff), case, {'edges': edges.tolist()}, sig)
+                elif dcase['bin_func'] == 'even' and (len(edges) != dcase['n_lags'] or not lists_close([M_eff / dcase['n_lags'] * (i + 1) for i in range(dcase['n_lags'])], edges.tolist(), 1e-10)):
+                    ctx.problem('oracle', "directional variogram: 'even' edges are not n equal-width classes ending at the effective maximum lag %r" % M_eff, case, {'edges': edges.tolist()}, sig)
+                elif dcase['bin_func'] == 'uniform':
+                    dd = np.array([x for x in sel if x <= M_eff])
+                    want = [float(np.percentile(dd, 100.0 * (i + 1) / dcase['n_lags'])) for i in range(dcase['n_lags'])]
+                    if not lists_close(want, edges.tolist(), 1e-10):
+                        ctx.problem('oracle', "directional variogram: 'uniform' edges are not the i/n quantiles of the selected distances within the maximum lag", case,
+                                    {'edges': edges.tolist()[:10], 'quantiles': want[:10]}, sig)
+                elif dcase['bin_func'] == 'ward':
+                    try:
+                        from sklearn.cluster import AgglomerativeClustering
+                        dref = np.array([x for x in sel if x <= M_eff])
+                        lab = AgglomerativeClustering(linkage='ward', n_clusters=dcase['n_lags']).fit(dref.reshape(-1, 1)).labels_
+                        cen = np.sort([dref[lab == i_].mean() for i_ in np.unique(lab)])
+                        eref = [(lo_ + up_) / 2 for lo_, up_ in zip([0] + list(cen)[:-1], cen)]
+                        if len(eref) != len(edges) or not lists_close(eref, edges.tolist(), 1e-10):
+                            ctx.problem('oracle', "directional variogram: 'ward' edges are not built from the selected pairs within the maximum lag", case,
+                                        {'edges': edges.tolist(), 'reference': eref}, sig)
+                    except Exception as e:
+                        ctx.count('directional_ward_reference_rejected', type(e).__name__)
+                ctx.tests['directional_edge_checks'] = ctx.tests.get('directional_edge_checks', 0) + 1
+                ctx.case_done(case, len(set(edges.tolist())) >= 2)
         vc.run_golden(ctx, coq, model)
         if ctx.thorough():
             rc, out, dt = coq.coqchk()
